@@ -119,16 +119,16 @@ def limit_errors_keep_their_variant(prog, chk):
 
 
 def run(prog, chk):
-    single_dispatch_entry(prog, chk)
-    limit_predicates(prog, chk)
-    depth_pairing(prog, chk)
-    limit_errors_final(prog, chk)
-    limit_errors_keep_their_variant(prog, chk)
-    limits_wiring(prog, chk)
-    scope_var_limit(prog, chk)
-    depth_test_unconditional(prog, chk)
+    chk.rule(single_dispatch_entry, prog, chk)
+    chk.rule(limit_predicates, prog, chk)
+    chk.rule(depth_pairing, prog, chk)
+    chk.rule(limit_errors_final, prog, chk)
+    chk.rule(limit_errors_keep_their_variant, prog, chk)
+    chk.rule(limits_wiring, prog, chk)
+    chk.rule(scope_var_limit, prog, chk)
+    chk.rule(depth_test_unconditional, prog, chk)
     from props import C06, C07
-    C06.config_single_writer(prog, chk)  # the limits in force are the configuration's: nothing but set_config replaces it (a saved copy restored later undoes a <config>)
+    chk.rule(C06.config_single_writer, prog, chk)  # the limits in force are the configuration's: nothing but set_config replaces it (a saved copy restored later undoes a <config>)
     if "server" in prog.features:
         C07.server_stack(prog, chk)  # the depth limit is sized for the stack the transform runs on, in every front-end
 
